@@ -102,13 +102,13 @@ PessimisticLock::LockSIX()  //
 void
 PessimisticLock::UnlockS()
 {
-  lock_.fetch_sub(kSLock, kRelaxed);
+  lock_.fetch_sub(kSLock, kRelease);
 }
 
 void
 PessimisticLock::UnlockSIX()
 {
-  lock_.fetch_xor(kSIXLock, kRelaxed);
+  lock_.fetch_xor(kSIXLock, kRelease);
 }
 
 void
